@@ -249,6 +249,20 @@ def classify (d : Design) (fl : Flags) (st : State) (srcG : Env) (names : List S
     if !hasMaster n && nested then "flatten-loses-nested-master" else "resolved-outline-differs"
   else "resolved-outline-differs"
 
+/-- The side conditions under which FontcProps.C12 `Step` covers the run of `process` on this input, evaluated:
+    the source graph is acyclic (depth stabilises below the fuel `process` uses); names created by splitting are
+    fresh; when flattening runs, no glyph reachable from the final glyph order is mixed. -/
+def sideConditions (fl : Flags) (exported incons names : List String) (env0 : Env) (st : State) : Option String :=
+  let n := names.length
+  if names.any fun g => depth env0 (n + 1) g != depth env0 n g || depth env0 n g ≥ n then some "source component graph is cyclic / deeper than the fuel"
+  else if (st.names.drop n).any names.contains then some "a split glyph reuses an existing glyph name"
+  else if fl.flatten && !fl.decomposeAll then
+    let pre := process { fl with flatten := false } (fun g => exported.contains g) (fun g => incons.contains g) names env0
+    let reach := reachable pre.env (pre.names.length + 1) pre.order
+    if reach.any fun g => match pre.env g with | some i => i.mixed | none => false then some "a mixed glyph is reachable when flatten runs"
+    else none
+  else none
+
 def checkBuild (d : Design) (names exported incons : List String) (locs : List (String × List Rat))
     (envs : List (List (String × Inst))) (bits : Nat) (f : Font) : BuildCheck := Id.run do
   let mut r : BuildCheck := {}
@@ -258,7 +272,9 @@ def checkBuild (d : Design) (names exported incons : List String) (locs : List (
   let dLoc := List.replicate d.axes.length (0 : Rat)
   let env0 := Env.ofList (envAt d names dLoc)
   let st := process fl (fun n => exported.contains n) (fun n => incons.contains n) names env0
-  if f.names != ".notdef" :: st.order then
+  if let some msg := sideConditions fl exported incons names env0 st then
+    r := { r with corr := some false, corrDetail := s!"{flagWord bits} model side condition: {msg}" }
+  else if f.names != ".notdef" :: st.order then
     r := { r with corr := some false, corrDetail := s!"{flagWord bits} glyph order font {f.names} model {st.order}" }
   else
     match st.order.findSome? (storageAgrees f st) with
